@@ -22,6 +22,15 @@ type c07Decl struct {
 	D   c07D   `command:"d"`
 }
 
+// c07InlineLen: the handler policy gets a two-byte inline argument (long
+// enough to be a quoted literal, which must reach the handler verbatim).
+func c07InlineLen(policy int) int {
+	if policy == 2 {
+		return 2
+	}
+	return 1
+}
+
 // H_C07_unknown: an option-looking token whose name is not in scope at its
 // position, under each of the three policies.
 func H_C07_unknown(v *V) {
@@ -44,7 +53,7 @@ func H_C07_unknown(v *V) {
 		name = N
 		U = "--" + N
 		if form == 1 {
-			inline = v.String(1)
+			inline = v.String(c07InlineLen(policy))
 			hasInline = true
 			U += "=" + inline
 		}
@@ -55,7 +64,7 @@ func H_C07_unknown(v *V) {
 		name = R
 		U = "-" + R
 		if form == 3 {
-			inline = v.String(1)
+			inline = v.String(c07InlineLen(policy))
 			hasInline = true
 			U += "=" + inline
 		}
